@@ -85,11 +85,12 @@ def trimSuffixS (s : Str) : Str :=
 def findByAlias (ut : UnitType) (a : Str) : Option Unit :=
   ut.units.find? (fun u => u.aliases.contains a)
 
-/-- `UnitType.sniffUnit` -/
+/-- `UnitType.sniffUnit` (exact alias first, then with a plural `s` stripped). -/
 def sniffUnit (ut : UnitType) (unit : Str) : Option Unit :=
   let u := toLower unit
-  let u := if u.length > 2 then trimSuffixS u else u
-  findByAlias ut u
+  match findByAlias ut u with
+  | some x => some x
+  | none => findByAlias ut (if u.length > 2 then trimSuffixS u else u)
 
 def isAutoUnit (u : Str) : Bool := u == S "minimum" || u == S "auto"
 
@@ -168,7 +169,7 @@ def digitsVal : Str → Nat → Nat
   | [], acc => acc
   | b :: r, acc => digitsVal r (acc * 10 + (b.toNat - 48))
 
-/-- `none` = range error (the code panics on it). -/
+/-- `none` = range error (the code returns an error for it). -/
 def parseInt64 (s : Str) : Option Int :=
   let (neg, ds) := match s with
     | 45 :: r => (true, r)
@@ -204,13 +205,13 @@ def RangeFilter.test (rf : RangeFilter) (v : Int) (u : Str) : Bool :=
 
 def colon : Str := [58]
 
-/-- `parseTagFilterRange`: `ok none` = "not a range" (nil), `panic` = ParseInt range error. -/
+/-- `parseTagFilterRange`: `ok none` = "not a range" (nil, nil), `err` = ParseInt range error. -/
 def parseTagFilterRange (filter : Str) : Outcome (Option RangeFilter) :=
   match findRanges filter with
   | [] => .ok none
   | m0 :: rest =>
     match parseInt64 m0.num with
-    | none => .panic "failed to parse int"
+    | none => .err "failed to parse int"
     | some v =>
       match scale v m0.unit m0.unit with
       | none => .err "autoscale not modelled"
@@ -224,7 +225,7 @@ def parseTagFilterRange (filter : Str) : Outcome (Option RangeFilter) :=
         | m1 :: _ =>
           if filter != m0.whole ++ colon ++ m1.whole then .ok none
           else match parseInt64 m1.num with
-            | none => .panic "failed to parse int"
+            | none => .err "failed to parse int"
             | some v2 =>
               match scale v2 m1.unit unit with
               | none => .err "autoscale not modelled"
